@@ -357,3 +357,101 @@ pub fn c14(ctx: &Ctx) {
         }
     });
 }
+
+fn no_ctty(blind: &[&str]) -> crate::tty::TtyCfg {
+    crate::tty::TtyCfg { stdout_is_tty: false, controlling: false, stderr_is_pipe: true, blind_lines: blind.iter().map(|s| s.to_string()).collect() }
+}
+
+fn play_no_ctty(cmd: &Cmd, blind: &[&str]) -> TtyRun {
+    crate::tty::run_tty_cfg(cmd, &no_ctty(blind), None, &mut |_p, _k, _n| None)
+}
+
+/// C04: the process has no controlling terminal, stdin is a terminal, stderr is a pipe and the plaintext
+/// goes to stdout: whatever is typed, stdout carries only authenticated plaintext.
+pub fn c04_no_controlling_terminal(ctx: &Ctx) {
+    let mut rng = Rng::fork(ctx.seed, "C04-noctty");
+    let wd = WorkDir::new("c04t");
+    let alice = Ident::new("alice", "apw", &mut rng);
+    let bob = Ident::new("bob", "bpw", &mut rng);
+    wd.write("kr.txt", keyring_text(&[(&alice, true), (&bob, true)]).as_bytes());
+    let pt = rng.bytes(150_000);
+    let chunking = refspec::natural_chunking(pt.len(), 65536);
+    wd.write("p.ktl", &refspec::encode_pass_file(b"ppw", &rng.arr32(), &pt, &chunking));
+    wd.write("k.ktl", &refspec::encode_key_file(&alice.sk, &alice.pk, &bob.pk, &rng.arr32(), &rng.arr32(), &pt, &chunking).unwrap());
+    let cases: Vec<(&str, Vec<&str>, Vec<&str>, bool)> = vec![
+        ("password decrypt, right password", vec!["password", "decrypt", "p.ktl"], vec!["ppw"], true),
+        ("password decrypt, wrong password", vec!["password", "decrypt", "p.ktl"], vec!["nope"], false),
+        ("key decrypt, right password", vec!["decrypt", "k.ktl", "-t", "bob", "-k", "kr.txt"], vec!["bpw"], true),
+        ("key decrypt, wrong password twice then the right one", vec!["decrypt", "k.ktl", "-t", "bob", "-k", "kr.txt"], vec!["nope", "bpw ", "bpw"], true),
+    ];
+    for (what, args, blind, succeeds) in cases {
+        let r = play_no_ctty(&Cmd::new(&wd.path, &args), &blind);
+        ctx.eval();
+        if r.exit == Exit::Timeout || r.stuck.is_some() {
+            ctx.inconclusive(&format!("C04 no-controlling-terminal lane: run did not complete: {}", r.describe().chars().take(200).collect::<String>()));
+            continue;
+        }
+        let case = || json!({"case": what, "typed": blind, "exit": r.exit.describe(), "stdout_len": r.stdout.len(), "stdout_head": String::from_utf8_lossy(&r.stdout[..r.stdout.len().min(60)]), "terminal_and_stderr": r.transcript.chars().take(400).collect::<String>()});
+        let is_prefix = r.stdout.len() <= pt.len() && r.stdout[..] == pt[..r.stdout.len()];
+        if !is_prefix {
+            ctx.violation("C04:tty:bytes-on-the-plaintext-destination-are-not-a-prefix-of-the-plaintext:no-controlling-terminal", case());
+        } else if succeeds && r.exit == Exit::Code(0) && r.stdout == pt {
+            ctx.seen("no controlling terminal, password typed on stdin: stdout carries exactly the plaintext");
+            ctx.distinct(&format!("noctty|{}", what));
+        } else if !succeeds && r.exit == Exit::Code(1) && r.stdout.is_empty() {
+            ctx.seen("no controlling terminal, wrong password typed on stdin: nothing on stdout, exit 1");
+            ctx.distinct(&format!("noctty|{}", what));
+        } else if succeeds && r.exit == Exit::Code(1) {
+            // the tool declined to read a password this way: nothing was released, which is all C04 asks
+            ctx.seen("no controlling terminal: tool refused to prompt, nothing released");
+        } else {
+            ctx.violation("C04:tty:unexpected-outcome-without-a-controlling-terminal", case());
+        }
+    }
+}
+
+/// C08: same wiring on the encrypting side: the ciphertext on stdout is exactly a conforming file.
+pub fn c08_no_controlling_terminal(ctx: &Ctx) {
+    let mut rng = Rng::fork(ctx.seed, "C08-noctty");
+    let wd = WorkDir::new("c08t");
+    let sender_name = "Sender-Name-Xq7";
+    let alice = Ident::new(sender_name, "apw", &mut rng);
+    let bob = Ident::new("Recipient-Zk3", "bpw", &mut rng);
+    wd.write("kr.txt", keyring_text(&[(&alice, true), (&bob, false)]).as_bytes());
+    let pt = rng.bytes(1000);
+    wd.write("p.bin", &pt);
+    // key mode
+    let r = play_no_ctty(&Cmd::new(&wd.path, &["encrypt", "p.bin", "-f", sender_name, "-t", "Recipient-Zk3", "-k", "kr.txt"]), &["apw"]);
+    ctx.eval();
+    let case = |r: &TtyRun| json!({"exit": r.exit.describe(), "stdout_len": r.stdout.len(), "stdout_head": String::from_utf8_lossy(&r.stdout[..r.stdout.len().min(60)]), "terminal_and_stderr": r.transcript.chars().take(400).collect::<String>()});
+    if r.exit == Exit::Timeout || r.stuck.is_some() {
+        ctx.inconclusive("C08 no-controlling-terminal lane: run did not complete");
+    } else if r.exit == Exit::Code(1) && r.stdout.is_empty() {
+        ctx.seen("no controlling terminal: tool refused to prompt, nothing written");
+    } else {
+        let conforms = matches!(refspec::decode_key_file(&r.stdout, &bob.sk, &bob.pk), Ok(d) if d.body.complete() && d.body.plaintext() == pt);
+        let leaks = [sender_name.as_bytes(), b"Recipient-Zk3", b"Unlock", b"key: "].iter().any(|n| r.stdout.windows(n.len()).any(|w| w == *n));
+        if r.exit == Exit::Code(0) && conforms && !leaks && r.stdout.len() == 132 + 32 + pt.len() {
+            ctx.seen("no controlling terminal, password typed on stdin: stdout is exactly a conforming file");
+            ctx.distinct("noctty|key");
+        } else {
+            ctx.violation("C08:tty:file-on-stdout-is-not-exactly-a-conforming-file:no-controlling-terminal", case(&r));
+        }
+    }
+    // password mode
+    let r = play_no_ctty(&Cmd::new(&wd.path, &["password", "encrypt", "p.bin"]), &["ppw", "ppw"]);
+    ctx.eval();
+    if r.exit == Exit::Timeout || r.stuck.is_some() {
+        ctx.inconclusive("C08 no-controlling-terminal lane: run did not complete");
+    } else if r.exit == Exit::Code(1) && r.stdout.is_empty() {
+        ctx.seen("no controlling terminal: tool refused to prompt, nothing written");
+    } else {
+        let conforms = matches!(refspec::decode_pass_file(&r.stdout, b"ppw"), Ok(d) if d.body.complete() && d.body.plaintext() == pt);
+        if r.exit == Exit::Code(0) && conforms && r.stdout.len() == 36 + 32 + pt.len() {
+            ctx.seen("no controlling terminal, password typed on stdin: stdout is exactly a conforming file");
+            ctx.distinct("noctty|password");
+        } else {
+            ctx.violation("C08:tty:file-on-stdout-is-not-exactly-a-conforming-file:no-controlling-terminal", case(&r));
+        }
+    }
+}
